@@ -226,6 +226,10 @@ func (e *Engine) RunSched(sc *Script) []Ev {
 			if !gates.releaseOne(who) {
 				return
 			}
+		case "g:snd", "g:cls", "g:rcv", "g:rd", "g:wat", "g:hsv":
+			if !gates.releaseOne(who[2:]) {
+				return
+			}
 		case "gc":
 			// two collections: the first queues finalizers, which run on
 			// the finalizer goroutine
